@@ -10,7 +10,7 @@ LEVEL = dict(
               "tables (reference: Python's independent cp1252 / mac_roman / latin_1 codecs plus the ISO 32000-1 Annex D deviations "
               "listed in the rule); the ASCII shortcut of text_string only admits bytes the PDFDoc table maps to themselves; "
               "BOM / byte-order agreement between encoder and decoder; the re-encoder has no path around the table. "
-              "non-trivial = cells that are defined (Some)",
+              "non-trivial = cells that are defined (Some); the bytes admitted to the one-byte form of text_string are the intersection of all dominating tests and must be ASCII identity cells; an integer search domain over the table covers all 256 cells",
     explanation="",
     trusted_base=["rustc constant evaluation of the tables", "Python's cp1252 / mac_roman / latin_1 codecs as an independent reference", "ISO 32000-1 Annex D.2 deviations listed in prop_c16.py"],
     exhaustive=True,
